@@ -3,7 +3,7 @@
 EXTENDS Subject, Json
 
 \* What the CURRENT code does (descriptive configurations refer to these; flip one when the code is repaired).
-DescSweepAborts == TRUE        \* F8
+DescSweepAborts == FALSE       \* F8 (repaired in /repo b9b69e4)
 DescKeepsDidRows == TRUE       \* F8b
 DescBuildOnPending == TRUE     \* F8c
 DescUpdatesDeactivated == TRUE \* F8d
